@@ -1,5 +1,7 @@
 import Liquid.Eval
 import Proofs.ExprRoundTrip
+import Proofs.ExprShowLex
+import Proofs.ExprParseImage
 /-!
 # C08 — expressions: literals, variable/property/index lookup and filter pipelines
 -/
@@ -204,3 +206,118 @@ example : parseExprSource [40, 32, 97, 32, 46, 98, 32, 91, 32, 48, 49, 32, 93, 1
     32, 41, 97, 110, 100, 40, 99, 32, 111, 114, 40, 100, 46, 101, 41, 99, 111, 110, 116, 97, 105, 110, 115, 39, 115, 39,
     41] = .ok rtExTree := rfl
 example : parseTokensE (rtExTree.toks 0 ++ [.ch 59]) = some (.expr rtExTree) := parse_show rtExTree
+
+/-! ## The scanner on the printed text (`Proofs/ExprShowLex.lean`)
+
+The canonical spelling of a token that has one is a complete lexeme of the scanner (`lexeme_of_ok`), and the layout
+of the printer - one space between two lexemes, nothing after `(` `[` and before `.name` `[` `]` `,` `)` - never
+lets two lexemes merge or split (`fits_ok`: a canonical lexeme is cut off before a break byte and before `.name`;
+`a.b`, `(1..2)`, `1.0.b`, `(1.5..2)`, `x | in: 1`, `a.true`, `a[-1]` are instances). So `Expr.lexesBack` holds for
+every printable tree and the byte-level round trip needs no hypothesis about the scanner. -/
+
+/-- **C08 (the scanner reads the printed text back).** For every printable tree the longest-match scanner turns
+    the printed text into exactly the canonical tokens (and the closing `;`), without a lexing error. -/
+theorem show_lexes_back (e : Expr) (h : e.printable = true) : lex e.show = (e.toks 0 ++ [.ch 59], none) :=
+  lexesBack_of_printable e h
+
+/-- **C08 (round trip, text, unconditional).** Parsing the printed text of a printable tree gives the tree. -/
+theorem parse_show_source_all (e : Expr) (h : e.printable = true) : parseExprSource e.show = .ok e :=
+  parse_show_source e (lexesBack_of_printable e h)
+
+/-- **C08 (the spacing of the printed text is irrelevant).** Write the canonical tokens of a printable tree with
+    ANY white space (space, `\t \n \v \f \r`, any amount) before each of them and after the last one - none at
+    all allowed exactly where the printer writes none (`SepsOK`: after `(`, `[`; before `.name`, `[`, `]`, `,`, `)`;
+    before the first token): the text parses to the tree. The places where the scanner forbids white space are
+    INSIDE a lexeme (between a filter name and its `:`, between `.` and the property name, inside `==` `..` …),
+    never between two lexemes. -/
+theorem show_spacing_irrelevant (e : Expr) (h : e.printable = true) (l : List (Bytes × ETok)) (w : Bytes)
+    (hl : l.map (·.2) = e.toks 0) (hs : SepsOK none l) (hw : isSpaces w = true) :
+    parseExprSource (spacedToks l ++ w) = .ok e := by
+  have hok : ∀ x ∈ l, x.2.ok = true := by
+    intro x hx
+    have : x.2 ∈ e.toks 0 := hl ▸ List.mem_map.2 ⟨x, hx, rfl⟩
+    exact List.all_eq_true.1 h _ this
+  unfold parseExprSource parseSource
+  rw [lex_spaced l w hok hs hw, hl]
+  simp only [parseTokensE_toks e]
+
+/-- … in the vocabulary of `whitespace_between_lexemes` (`Proofs/C08Source.lean`): the canonical lexemes of a
+    printable tree, laid out with any family of separators `g` (white space, non-empty between two lexemes) and
+    trailing white space `w`, parse to the tree. -/
+theorem show_any_whitespace (e : Expr) (h : e.printable = true) (g : Nat → Bytes) (w : Bytes) (hg : Separators g)
+    (hw : isSpaces w = true) : parseExprSource (spacedText g e.lexemes ++ w) = .ok e := by
+  have hok : ∀ t ∈ e.toks 0, t.ok = true := fun t ht => List.all_eq_true.1 h t ht
+  have hl : ∀ x ∈ e.lexemes, Lexeme x.1 x.2 := by
+    intro x hx
+    obtain ⟨t, ht, rfl⟩ := List.mem_map.1 hx
+    exact (lexeme_of_ok t (hok t ht)).1
+  have hws := wellSpaced_spacedText g e.lexemes w hl hg hw
+  unfold parseExprSource spacedText
+  rw [parseSource_pieces _ w hws, layoutFrom_lexemes]
+  unfold Expr.lexemes
+  rw [lexemeToks_toks _ hok]
+  have h59 : lexemeToks [(Rule.rAny, [59])] = ([.ch 59], none) := rfl
+  rw [h59]
+  simp only [parseOfLex, parseTokensE_toks e]
+
+/-! Non-vacuity -/
+
+example : lex rtExText = (rtExTree.toks 0 ++ [.ch 59], none) := by
+  have := show_lexes_back rtExTree (by decide +kernel)
+  rwa [show rtExTree.show = rtExText from by decide +kernel] at this
+example : parseExprSource rtExText = .ok rtExTree := by
+  have := parse_show_source_all rtExTree (by decide +kernel)
+  rwa [show rtExTree.show = rtExText from by decide +kernel] at this
+
+/-- `(a.b[-1]..2.5)` written `\t( a\n.b [-1\r]  ..\v2.5 )\f`: white space before `.b`, `[`, `]`, `)` and after `(`,
+    none after `[` -/
+example : parseExprSource [9, 40, 32, 97, 10, 46, 98, 32, 91, 45, 49, 13, 93, 32, 32, 46, 46, 11, 50, 46, 53, 32, 41, 12] =
+    .ok (.range (.index (.prop (.var [97]) [98]) (.lit (.int .int (-1)))) (.lit (.flt .f64 (5/2)))) := by
+  have hp : (Expr.range (.index (.prop (.var [97]) [98]) (.lit (.int .int (-1)))) (.lit (.flt .f64 (5/2)))).printable = true := by
+    decide +kernel
+  have hs : SepsOK none [([9], ETok.ch 40), ([32], .ident [97]), ([10], .property [98]), ([32], .ch 91),
+      ([], .lit (.int .int (-1))), ([13], .ch 93), ([32, 32], .dotdot), ([11], .lit (.flt .f64 (5/2))), ([32], .ch 41)] :=
+    ⟨rfl, trivial, rfl, (fun h => by cases h), rfl, (fun h => by cases h), rfl, (fun h => by cases h), rfl, (fun _ => rfl),
+     rfl, (fun h => by cases h), rfl, (fun h => by cases h), rfl, (fun h => by cases h), rfl, (fun h => by cases h), trivial⟩
+  have := show_spacing_irrelevant _ hp _ [12] (by simp [Expr.toks]) hs rfl
+  rwa [show spacedToks [([9], ETok.ch 40), ([32], .ident [97]), ([10], .property [98]), ([32], .ch 91),
+      ([], .lit (.int .int (-1))), ([13], .ch 93), ([32, 32], .dotdot), ([11], .lit (.flt .f64 (5/2))), ([32], .ch 41)] ++ [12] =
+    [9, 40, 32, 97, 10, 46, 98, 32, 91, 45, 49, 13, 93, 32, 32, 46, 46, 11, 50, 46, 53, 32, 41, 12] from by decide +kernel] at this
+
+/-- `x | f: 1, "a b"` with a newline in front of every lexeme and a tab at the end -/
+example : parseExprSource (spacedText (fun _ => [10]) (Expr.filter (.var [120]) [102] [.lit (.int .int 1), .lit (.str [97, 32, 98])]).lexemes ++ [9]) =
+    .ok (.filter (.var [120]) [102] [.lit (.int .int 1), .lit (.str [97, 32, 98])]) :=
+  show_any_whitespace _ (by decide +kernel) _ _ ⟨fun _ => rfl, fun _ _ => by simp⟩ rfl
+
+/-! ## The parser's image (`Proofs/ExprScanImage.lean`, `Proofs/ExprParseImage.lean`)
+
+Every token the scanner returns is well formed (`lex_scanOK`: identifier / keyword / property tokens carry the
+text of an identifier, an identifier token is none of `true false nil and or contains in`, an integer literal is
+within int64, a string literal does not contain its own quote), and every leaf of the tree the parser builds is
+the content of one of its tokens (`parse_lvAll`). So a parsed tree is printable as soon as the values of its float
+literals are (`floatOK`: the exact decimal expansion `showFloat q` reads back as `q`). That this holds for every
+`float64` the scanner produces (`roundF64` is idempotent, and the exact expansion of a dyadic rational denotes
+it) is NOT proved; the stream `eshow` checks it on every generated case.
+
+Full statements (not proved): `parseExprSource s = .ok e → e.printable` and
+`parseExprSource s = .ok e → parseExprSource e.show = .ok e`, for all `s`. -/
+
+/-- **C08 (the parser's image is printable, up to float values).** A tree parsed from a source text whose float
+    literal tokens have printable values is printable. -/
+theorem parse_image_printable_partial (s : Bytes) (e : Expr) (h : parseExprSource s = .ok e)
+    (hf : (lex s).1.all floatOK = true) : e.printable = true := printable_of_parse s e h hf
+
+/-- **C08 (normalisation is idempotent, text).** Whatever text parses to `e` - any spelling, any white space,
+    redundant parentheses, leading zeros - the printed text of `e` parses to `e` again. -/
+theorem show_parse_source_partial (s : Bytes) (e : Expr) (h : parseExprSource s = .ok e)
+    (hf : (lex s).1.all floatOK = true) : parseExprSource e.show = .ok e :=
+  parse_show_source_all e (printable_of_parse s e h hf)
+
+/-- `( a .b [ 01 ]|f:'x"',-02 )and(c or(d.e)contains's')` parses to `rtExTree`, whose printed text is `rtExText` -/
+example : parseExprSource rtExText = .ok rtExTree := by
+  have := show_parse_source_partial [40, 32, 97, 32, 46, 98, 32, 91, 32, 48, 49, 32, 93, 124, 102, 58, 39, 120, 34, 39, 44,
+    45, 48, 50, 32, 41, 97, 110, 100, 40, 99, 32, 111, 114, 40, 100, 46, 101, 41, 99, 111, 110, 116, 97, 105, 110, 115, 39,
+    115, 39, 41] rtExTree rfl rfl
+  rwa [show rtExTree.show = rtExText from by decide +kernel] at this
+/-- the float hypothesis on `1.50 | f: 0.1`: both literal values (3/2 and the double nearest to 0.1) are printable -/
+example : (lex [49, 46, 53, 48, 32, 124, 32, 102, 58, 32, 48, 46, 49]).1.all floatOK = true := by decide +kernel
